@@ -9,7 +9,13 @@ from fractions import Fraction as F
 from . import ticks as T
 from .container import operator_options
 
-TAU = F(1, 10 ** 6)      # GB: admission / capacity band
+TAU = F(1, 10 ** 6)      # GB: admission / capacity band for pools up to 10^6 GB
+
+
+def tau_for(cap_ram):
+    """band within which float sums of the implementation may fall on either side of a limit: 1e-6 GB, or 1e-12 of the
+    pool's capacity for very large pools (one ulp of 2e9 GB is already 2.4e-7 GB)"""
+    return max(TAU, F(cap_ram) / 10 ** 12)
 
 
 class MPipe:
@@ -54,6 +60,7 @@ class ModelPool:
         self.cap_ram = F(ram)
         self.free_cpu = cpus
         self.free_ram = F(ram)
+        self.tau = tau_for(ram)
         self.overcommit = overcommit
         self.multi = multi
         self.tps = tps
@@ -95,9 +102,9 @@ class ModelPool:
             return ("reject", "C03", f"batch {batch} oversells the {self.free_cpu} free CPUs of pool {self.pool_id}")
         if not self.overcommit:
             tot = sum(F(b[1]) for b in batch)
-            if tot > self.free_ram + TAU:
+            if tot > self.free_ram + self.tau:
                 return ("reject", "C03", f"batch {batch} oversells the {float(self.free_ram)} GB free RAM of pool {self.pool_id}")
-            if tot > self.free_ram - TAU:
+            if tot > self.free_ram - self.tau:
                 if len(batch) == 1 and batch[0][3]:
                     return ("accept", None, None)   # one assignment taking exactly the reported free RAM (bit-identical)
                 return ("either", None, None)
@@ -186,7 +193,7 @@ class ModelPool:
         self.last_total_before_pool_kill = total
         victims = [c for c in alive if c.cid in real_failed]
         self.last_victims = [c.cid for c in victims]
-        self.last_crossing = total > self.cap_ram + TAU
+        self.last_crossing = total > self.cap_ram + self.tau
         elig = [c for c in alive if c.usage > 0]
         by_usage = sorted(elig, key=lambda c: (-c.usage, c.cid))
         by_score = sorted(elig, key=lambda c: (-(c.usage * c.usage / c.ram), c.cid))
@@ -194,12 +201,12 @@ class ModelPool:
         self.last_order_differs = [c.cid for c in by_usage] != [c.cid for c in by_score]
         self.last_tie = len({c.usage * c.usage / c.ram for c in elig}) < len(elig)
         if not victims:
-            if total > self.cap_ram + TAU:
+            if total > self.cap_ram + self.tau:
                 problems.append(("C11:kill-missing", f"pool {self.pool_id}: usage {float(total)} GB > capacity {float(self.cap_ram)} GB and nothing killed"))
         else:
             def score(c):
                 return c.usage * c.usage / c.ram
-            if not total > self.cap_ram - TAU:
+            if not total > self.cap_ram - self.tau:
                 problems.append(("C04:unjustified-kill", f"pool {self.pool_id}: containers {[c.cid for c in victims]} killed although every demand fits its allocation and pool usage {float(total)} <= capacity {float(self.cap_ram)}"))
             for v in victims:
                 if not v.usage > 0:
@@ -213,10 +220,10 @@ class ModelPool:
                     problems.append(("C11:survivor-higher-score", f"pool {self.pool_id}: {s.cid} (score {float(score(s))}) survives while {lowest.cid} (score {float(score(lowest))}) was killed"))
                     break
             rest_before_last = total - sum((v.usage for v in vs[1:]), F(0))
-            if not rest_before_last > self.cap_ram - TAU:
+            if not rest_before_last > self.cap_ram - self.tau:
                 problems.append(("C11:not-minimal", f"pool {self.pool_id}: killing {lowest.cid} was not needed: usage without the other victims {float(rest_before_last)} <= capacity {float(self.cap_ram)}"))
             remaining = total - sum((v.usage for v in victims), F(0))
-            if remaining > self.cap_ram + TAU:
+            if remaining > self.cap_ram + self.tau:
                 problems.append(("C11:insufficient", f"pool {self.pool_id}: usage after kills {float(remaining)} still above capacity {float(self.cap_ram)}"))
             for v in victims:
                 v.usage = F(0)
